@@ -106,6 +106,22 @@ pub fn spec(check: &str, tier: &str) -> Option<CheckSpec> {
                 abort_is_violation: true,
             })
         }
+        "C04" => {
+            let mut progs = fam::race_a(tier);
+            let na = progs.len();
+            progs.extend(fam::race_s(tier));
+            Some(CheckSpec {
+                id: "C04",
+                level: "model_checking",
+                rule: "RACE-a: every LIT program on one flag location with two conflicting cell accesses inserted at every pair of positions (optionally guarded by the preceding load) + sentinels; RACE-s: the same insertion into small lock/channel/notify/condvar/park programs; non-trivial = the reference has a racy execution",
+                assumptions: vec!["RC11 happens-before for atomics/fences; SC machine vector clocks built from the edges the property names (spawn/join, lock hand-over, message, unpark, notify)"],
+                wall_cap: wall,
+                jobs: jobs("C04", tier, progs, &cfg),
+                self_checks: vec![litmus_selfcheck()],
+                completed_level: format!("RACE-a {} programs, RACE-s the rest ({})", na, tier),
+                abort_is_violation: true,
+            })
+        }
         "C05" => {
             let (mut progs, l1) = lock_programs(tier);
             let (w, l2) = wait_programs(tier);
@@ -166,8 +182,56 @@ pub fn spec(check: &str, tier: &str) -> Option<CheckSpec> {
                 abort_is_violation: true,
             })
         }
+        "C10" => {
+            let mut progs = fam::leak_family();
+            let (a, l1) = arc_programs(tier, true);
+            progs.extend(a);
+            Some(CheckSpec {
+                id: "C10",
+                level: "model_checking",
+                rule: "LEAK family (arc / Track / raw allocation / channel message: released, not released, leaked, released or leaked depending on a CAS race) + ARC family with forget; non-trivial = the reference has a leaking terminated execution or >= 2 outcomes",
+                assumptions: vec!["handles / tracked values still held by the harness at the end of the iteration are released by it (only forgotten ones leak)"],
+                wall_cap: wall,
+                jobs: jobs("C10", tier, progs, &cfg),
+                self_checks: vec![],
+                completed_level: format!("LEAK sentinels + {}", l1),
+                abort_is_violation: true,
+            })
+        }
+        "C11" => {
+            let (progs, level) = arc_programs(tier, false);
+            Some(CheckSpec {
+                id: "C11",
+                level: "model_checking",
+                rule: "every program of the ARC family up to the size level; every iteration's completion history replayed on the reference-count automaton; non-trivial = >= 2 reference outcomes",
+                assumptions: vec!["reference-count automaton of DESIGN.md appendix C; strong_count/get_mut results compared at their linearisation point"],
+                wall_cap: wall,
+                jobs: jobs("C11", tier, progs, &cfg),
+                self_checks: vec![],
+                completed_level: level,
+                abort_is_violation: true,
+            })
+        }
         _ => None,
     }
+}
+
+pub fn arc_programs(tier: &str, with_forget: bool) -> (Vec<Program>, String) {
+    let mut v = vec![];
+    let level;
+    if tier == "quick" {
+        v.extend(fam::arc_family(1, 2, 2, 4, true, with_forget, false));
+        v.extend(fam::arc_family(2, 2, 1, 4, false, with_forget, false));
+        v.extend(fam::arc_family(1, 2, 1, 3, false, false, true));
+        level = "ARC: 1 child x <=2 ops + main <=2 (raw ops); 2 children <=4 ops; cell-in-Drop variant".to_string();
+    } else {
+        v.extend(fam::arc_family(1, 3, 2, 5, true, with_forget, false));
+        v.extend(fam::arc_family(2, 2, 2, 5, true, with_forget, false));
+        v.extend(fam::arc_family(3, 1, 1, 4, false, with_forget, false));
+        v.extend(fam::arc_family(2, 2, 1, 4, false, false, true));
+        level = "ARC: 1 child x <=3 ops + main <=2; 2 children <=5 ops (raw ops); 3 children x 1 op; cell-in-Drop variant".to_string();
+    }
+    (v, level)
 }
 
 pub fn lock_programs(tier: &str) -> (Vec<Program>, String) {
